@@ -29,6 +29,8 @@ import (
 const simrtSrc = `// Package simrt is dropped into an instrumented scratch copy by /verif/tools/instrument.
 package simrt
 
+import "time"
+
 var (
 	YieldHook    func(label, class string)
 	AcquireHook  func(try func() bool, label string)
@@ -52,6 +54,27 @@ func Acquire(try func() bool, lock func(), label string) {
 	lock()
 }
 
+// The clock seam (instrument -clock): time.Now / time.Since / time.Until / time.Sleep of
+// the library are routed here. With ClockHook nil they are the real ones.
+var ClockHook func() time.Time
+var SleepHook func(d time.Duration)
+
+func Now() time.Time {
+	if h := ClockHook; h != nil {
+		return h()
+	}
+	return time.Now()
+}
+func Since(t time.Time) time.Duration { return Now().Sub(t) }
+func Until(t time.Time) time.Duration { return t.Sub(Now()) }
+func Sleep(d time.Duration) {
+	if h := SleepHook; h != nil {
+		h(d)
+		return
+	}
+	time.Sleep(d)
+}
+
 // Released tells the simulator that a lock was released.
 func Released() {
 	if h := ReleasedHook; h != nil {
@@ -67,12 +90,31 @@ var (
 	nLocks  int
 )
 
+var (
+	optClock   bool // route time.Now/Since/Until/Sleep through simrt
+	optNoYield bool // no schedule points, no lock seams (clock seam only)
+	nClock     int
+)
+
 func main() {
-	if len(os.Args) != 2 {
-		fmt.Fprintln(os.Stderr, "usage: instrument <scratch copy of the repository>")
+	args := os.Args[1:]
+	for len(args) > 0 && strings.HasPrefix(args[0], "-") {
+		switch args[0] {
+		case "-clock":
+			optClock = true
+		case "-noyield":
+			optNoYield = true
+		default:
+			fmt.Fprintln(os.Stderr, "unknown flag", args[0])
+			os.Exit(2)
+		}
+		args = args[1:]
+	}
+	if len(args) != 1 {
+		fmt.Fprintln(os.Stderr, "usage: instrument [-clock] [-noyield] <scratch copy of the repository>")
 		os.Exit(2)
 	}
-	root := os.Args[1]
+	root := args[0]
 	gm, err := os.ReadFile(filepath.Join(root, "go.mod"))
 	if err != nil {
 		die(err)
@@ -110,8 +152,8 @@ func main() {
 	if err != nil {
 		die(err)
 	}
-	fmt.Printf("instrumented: %d yields, %d lock seams\n", nYields, nLocks)
-	if nLocks == 0 {
+	fmt.Printf("instrumented: %d yields, %d lock seams, %d clock reads\n", nYields, nLocks, nClock)
+	if nLocks == 0 && !optNoYield {
 		// e.g. a tree that synchronises with atomics only: schedule points are
 		// still everywhere; the lock-related reach probes are switched off
 		fmt.Println("warning: no lock operation found to route through the simulator")
@@ -131,10 +173,13 @@ func instrumentFile(path, rel string, rootPkg bool) error {
 	if f.Name.Name == "main" {
 		return nil
 	}
-	before := nYields + nLocks
+	before := nYields + nLocks + nClock
+	if optClock {
+		rewriteClock(f)
+	}
 	for _, d := range f.Decls {
 		fd, ok := d.(*ast.FuncDecl)
-		if !ok || fd.Body == nil {
+		if !ok || fd.Body == nil || optNoYield {
 			continue
 		}
 		class := classOf(fd, rootPkg)
@@ -143,7 +188,7 @@ func instrumentFile(path, rel string, rootPkg bool) error {
 		// writer and in-flight requests
 		rewriteBlock(fd.Body, rel, class)
 	}
-	if nYields+nLocks == before {
+	if nYields+nLocks+nClock == before {
 		return nil
 	}
 	addImport(f, module+"/simrt")
@@ -365,4 +410,47 @@ func addImport(f *ast.File, path string) {
 	gd := &ast.GenDecl{Tok: token.IMPORT, Specs: []ast.Spec{spec}}
 	f.Decls = append([]ast.Decl{gd}, f.Decls...)
 	f.Imports = append(f.Imports, spec)
+}
+
+// rewriteClock routes <time>.Now / Since / Until / Sleep through simrt (purely syntactic: the
+// identifier must be the file's name for the imported package "time" and must not resolve to
+// a local object). A blank use keeps the import alive if nothing else of it is left.
+func rewriteClock(f *ast.File) {
+	name := ""
+	for _, im := range f.Imports {
+		if im.Path.Value == `"time"` {
+			name = "time"
+			if im.Name != nil {
+				name = im.Name.Name
+			}
+		}
+	}
+	if name == "" || name == "." || name == "_" {
+		return
+	}
+	n := 0
+	ast.Inspect(f, func(x ast.Node) bool {
+		sel, ok := x.(*ast.SelectorExpr)
+		if !ok {
+			return true
+		}
+		id, ok := sel.X.(*ast.Ident)
+		if !ok || id.Name != name || id.Obj != nil {
+			return true
+		}
+		switch sel.Sel.Name {
+		case "Now", "Since", "Until", "Sleep":
+			sel.X = ast.NewIdent("simrt")
+			n++
+		}
+		return true
+	})
+	if n == 0 {
+		return
+	}
+	nClock += n
+	f.Decls = append(f.Decls, &ast.GenDecl{Tok: token.VAR, Specs: []ast.Spec{&ast.ValueSpec{
+		Names:  []*ast.Ident{ast.NewIdent("_")},
+		Values: []ast.Expr{&ast.SelectorExpr{X: ast.NewIdent(name), Sel: ast.NewIdent("Nanosecond")}},
+	}}})
 }
